@@ -127,6 +127,7 @@ def fn_line_ranges(path):
     out = []
     stack = []
     depth = 0
+    paren = 0  # a `;` inside `[u8; N]` of a signature does not end a declaration
     pending = None
     for i, line in enumerate(src, 1):
         code = line.split("//")[0]
@@ -134,6 +135,10 @@ def fn_line_ranges(path):
         if m:
             pending = (m.group(1), i)
         for ch in code:
+            if ch in "([":
+                paren += 1
+            elif ch in ")]":
+                paren = max(paren - 1, 0)
             if ch == "{":
                 depth += 1
                 if pending:
@@ -144,7 +149,7 @@ def fn_line_ranges(path):
                     n, s, _ = stack.pop()
                     out.append((n, s, i))
                 depth -= 1
-            elif ch == ";" and pending and depth == (stack[-1][2] if stack else 0):
+            elif ch == ";" and pending and paren == 0 and depth == (stack[-1][2] if stack else 0):
                 pending = None
     return out
 
@@ -429,6 +434,14 @@ def replay_case(prop, job, vals, idx):
 
 def replay_file(prop, path):
     case = json.load(open(path))
+    if case.get("harness") == "hangwit::hang_witness":
+        ok, out = build_replay()
+        st, detail = native_run("hangwit::hang_witness", case.get("values_file") or path, "dev", timeout=900)
+        log("replay hang witness:", st, detail[:300].replace("\n", " | "))
+        if st in ("reproduced", "hang"):
+            log("VIOLATION property=%s replay=%s" % (prop, path))
+            return 1
+        return 0 if st == "passed" else 2
     job = None
     for j in registry.PROPS[prop]["jobs"]:
         if j["h"] == case["harness"]:
@@ -572,6 +585,23 @@ def run_property(prop, tier, seed, only=None, njobs=None):
             tests = playback_values(j, tier)
             r["playback_tests"] = len(tests)
             if not tests:
+                # Kani writes no playback for a failed UNWINDING assertion.  When the loop belongs to the
+                # code under test ("fails to terminate"), concretise the solver's verdict with the native
+                # witness search of kani/src/hangwit.rs; anything else stays inconclusive.
+                hang_keys = [k for k in unlisted if "unwinding assertion" in k and ("stun_types::" in k or "stun_proto::" in k)]
+                if hang_keys and len(hang_keys) == len(unlisted):
+                    os.makedirs(CASES, exist_ok=True)
+                    vpath = os.path.join(CASES, "%s-%s-hang.values" % (prop, j["h"].replace("::", "-")))
+                    open(vpath, "w").write("# no solver values: witness search over message skeletons (hangwit.rs)\n")
+                    st, detail = native_run("hangwit::hang_witness", vpath, "dev", timeout=900)
+                    cpath = os.path.join(CASES, "%s-%s-hang.json" % (prop, j["h"].replace("::", "-")))
+                    json.dump({"property": prop, "harness": "hangwit::hang_witness", "reported_by": j["h"], "solver_keys": hang_keys, "values": [],
+                               "status": st, "detail": detail}, open(cpath, "w"), indent=1)
+                    if st in ("reproduced", "hang"):
+                        violations.append((j["h"], cpath, unlisted, detail))
+                        continue
+                    inconclusive.append((j["h"], "unwinding assertion failed in the code under test (%s) but the native witness search found no hanging input (%s)" % (hang_keys, st)))
+                    continue
                 inconclusive.append((j["h"], "failed checks %s but no concrete playback was produced" % unlisted))
                 continue
             reproduced = False
